@@ -4,6 +4,24 @@ look-alike grammar class (literally named `Rule`, as every bundled module names 
 spelled like core rules but mean something else, used on the same inputs first."""
 
 
+_RESTATED = []
+
+
+def restate_core(P):
+    """The default namespace (the base class `Rule`) RESTATES core rules in its own spelling - same language, lower-case names,
+    as a grammar that carries its own copy of RFC 5234 appendix B.1 does.  Rule names are case-insensitive: nothing may change,
+    in particular not for the ABNF reader, which recognises digits of repeat counts and numeric values by these rules."""
+    if _RESTATED:
+        return
+    _RESTATED.append(True)
+    for t in ['digit = %x30-39', 'bit = "0" / "1"', 'hexdig = DIGIT / "A" / "B" / "C" / "D" / "E" / "F"', 'alpha = %x41-5A / %x61-7A',
+              'dquote = %x22', 'sp = %x20', 'wsp = SP / HTAB']:
+        try:
+            P.Rule.create(t)
+        except Exception:  # noqa
+            pass
+
+
 def pollute(P):
     other = type("OtherGrammar", (P.Rule,), {})
     # the class LOOKS core names UP (non-creating `get`, as a tool listing a grammar would) before it defines them
